@@ -437,3 +437,325 @@ def table_arg_value(fn, du, node_id, expr, own_table=None):
       if ok and isinstance(v, str) and len(du.rebinders(expr.id)) == 1:
         return v
   return None
+
+
+# ------------------------------------------------------------------ spelling-independent helpers
+import copy as _copy
+
+
+def _pure(e):
+  """An expression with no side effect whose value does not depend on when it is evaluated
+  relative to plain local code: names, attribute chains, constants, subscripts of those."""
+  if isinstance(e, (ast.Name, ast.Constant)):
+    return True
+  if isinstance(e, ast.Attribute):
+    return _pure(e.value)
+  if isinstance(e, ast.Subscript):
+    return _pure(e.value) and _pure(e.slice)
+  if isinstance(e, ast.Tuple):
+    return all(_pure(x) for x in e.elts)
+  return False
+
+
+def alias_value(fn, name, pure_only=True):
+  """The expression a local stands for when it is bound exactly once in fn (a plain `name = expr`,
+  not a parameter, loop/with/comprehension target or augmented assignment), else None."""
+  if name in fn.fi.params() or name in ("self", "cls"):
+    return None
+  ds = E.local_defs(fn.node, name)
+  if len(ds) != 1:
+    return None
+  nb = 0
+  for x in walk_no_nested(fn.node):
+    if isinstance(x, ast.Name) and x.id == name and isinstance(x.ctx, (ast.Store, ast.Del)):
+      nb += 1
+  if nb != 1:
+    return None
+  # the single binding must be a plain single-target assignment (not a tuple element)
+  for x in walk_no_nested(fn.node):
+    if isinstance(x, ast.Assign) and x.value is ds[0]:
+      if not (len(x.targets) == 1 and isinstance(x.targets[0], ast.Name)):
+        return None
+  if pure_only and not _pure(ds[0]):
+    return None
+  return ds[0]
+
+
+def expand(fn, e, depth=0, pure_only=True):
+  """Copy of expression e with single-assignment locals replaced by what they stand for
+  (recursively), so that `x = a.b; f(x.c)` and `f(a.b.c)` compare equal."""
+  if e is None:
+    return None
+  class Tr(ast.NodeTransformer):
+    def visit_Name(self, node):
+      if isinstance(node.ctx, ast.Load) and depth < 6:
+        v = alias_value(fn, node.id, pure_only)
+        if v is not None and not any(isinstance(y, ast.Name) and y.id == node.id
+                                     for y in ast.walk(v)):
+          return expand(fn, v, depth + 1, pure_only)
+      return node
+    def visit_Lambda(self, node):
+      return node
+  return Tr().visit(_copy.deepcopy(e))
+
+
+def canon(fn, e, pure_only=True):
+  """Normalised text of e with local aliases expanded."""
+  return text(expand(fn, e, pure_only=pure_only)) if e is not None else None
+
+
+def deref(fn, e, depth=0):
+  """Follow a Name to the expression of its single binding (any expression, not only pure ones),
+  repeatedly; other expressions are returned unchanged."""
+  while isinstance(e, ast.Name) and depth < 6:
+    v = alias_value(fn, e.id, pure_only=False)
+    if v is None:
+      break
+    e = v
+    depth += 1
+  return e
+
+
+def post_calls(exprs):
+  """Call nodes of the given expressions in evaluation (post-) order; nested defs and lambdas are
+  not entered."""
+  out = []
+  def go(n):
+    for ch in ast.iter_child_nodes(n):
+      if isinstance(ch, (ast.FunctionDef, ast.AsyncFunctionDef, ast.ClassDef, ast.Lambda)):
+        continue
+      go(ch)
+    if isinstance(n, ast.Call):
+      out.append(n)
+  for e in exprs:
+    if e is not None:
+      go(e)
+  return out
+
+
+def self_method(w, fn, call):
+  """FuncInfo of the method a `self.<name>(...)` call of fn resolves to in fn's own class (or an
+  ancestor), else None."""
+  if fn.fi.cls is None or not isinstance(call.func, ast.Attribute):
+    return None
+  v = call.func.value
+  if not (isinstance(v, ast.Name) and v.id == "self"):
+    nm = fn.name(call)
+    if not (nm and nm.startswith("self.") and nm.count(".") == 1):
+      return None
+  return w.repo.find_method(fn.fi.cls, call.func.attr)
+
+
+def module_function(w, fn, call):
+  """FuncInfo of a plain `name(...)` call that resolves to a function of fn's own module."""
+  if not isinstance(call.func, ast.Name):
+    return None
+  return w.repo.funcs.get("%s.%s" % (fn.fi.module.name, call.func.id))
+
+
+def local_callee(w, fn, call):
+  """Same-class method or same-module function a call resolves to, else None."""
+  return self_method(w, fn, call) or module_function(w, fn, call)
+
+
+def always_nodes(w, fn, pred, depth=2, cfg=None, _stack=()):
+  """ids of nodes of fn that certainly perform the event: a call satisfying pred(call, name, fn),
+  or a call of a same-class / same-module helper every normal path of which performs it (followed
+  `depth` levels)."""
+  cfg = cfg or fn.cfg
+  out = set()
+  for (n, c, nm) in fn.calls(cfg):
+    if pred(c, nm, fn):
+      out.add(n.id)
+    elif depth > 0:
+      fi = local_callee(w, fn, c)
+      if fi is not None and fi.qualname not in _stack and fi.qualname != fn.qualname:
+        h = w.fn_of(fi)
+        inner = always_nodes(w, h, pred, depth - 1, None, _stack + (fn.qualname,))
+        if inner and h.cfg.dominated_by(h.cfg.exit.id, inner):
+          out.add(n.id)
+  return out
+
+
+def may_nodes(w, fn, pred, depth=2, cfg=None, _stack=()):
+  """ids of nodes of fn that may perform the event, directly or inside a same-class / same-module
+  helper (followed `depth` levels)."""
+  cfg = cfg or fn.cfg
+  out = set()
+  for (n, c, nm) in fn.calls(cfg):
+    if pred(c, nm, fn):
+      out.add(n.id)
+    elif depth > 0:
+      fi = local_callee(w, fn, c)
+      if fi is not None and fi.qualname not in _stack and fi.qualname != fn.qualname:
+        h = w.fn_of(fi)
+        if may_nodes(w, h, pred, depth - 1, None, _stack + (fn.qualname,)):
+          out.add(n.id)
+  return out
+
+
+class ReachDefs(object):
+  """Reaching definitions of locals over fn's normal CFG. A definition is a CFG node that
+  (re)binds the name (DefUse.defs); "ENTRY" stands for the value the name has on entry (a
+  parameter). In-place mutations (x.append, x[k] = v) are not definitions: they do not kill."""
+  ENTRY = "ENTRY"
+
+  def __init__(self, fn, du, cfg=None):
+    self.fn = fn
+    self.du = du
+    self.cfg = cfg or fn.cfg
+    self._cache = {}
+
+  def _from(self, name, start):
+    key = (name, start)
+    if key in self._cache:
+      return self._cache[key]
+    D = self.du.defs.get(name, set())
+    cfg = self.cfg
+    seen = set()
+    first = [cfg.entry.id] if start == self.ENTRY else list(cfg.succ[start])
+    todo = list(first)
+    while todo:
+      x = todo.pop()
+      if x in seen:
+        continue
+      seen.add(x)
+      if x in D:
+        continue            # a later binding: reached (it may read the name), not passed
+      todo.extend(cfg.succ[x])
+    self._cache[key] = seen
+    return seen
+
+  def reaching(self, name, node_id):
+    """Definitions of `name` whose value a read at node_id may see."""
+    out = set()
+    for d in self.du.defs.get(name, set()):
+      if node_id in self._from(name, d):
+        out.add(d)
+    if node_id in self._from(name, self.ENTRY):
+      out.add(self.ENTRY)
+    return out
+
+
+def taint(fn, du, rd, seeds, stop=()):
+  """Set of (name, def) pairs whose value is computed from one of the seed (name, def) pairs,
+  propagated through local bindings (and in-place mutations, which add to the mutated name's
+  reaching definitions). Definitions made at `stop` nodes are not tainted (e.g. the node whose
+  result is the translated value)."""
+  cfg = rd.cfg
+  tainted = set(seeds)
+  stop = set(stop)
+  changed = True
+  while changed:
+    changed = False
+    for n in cfg.nodes:
+      if n.stmt is None or n.id in stop:
+        continue
+      loads = set()
+      for e in n.exprs:
+        if e is not None:
+          loads |= names_loaded(e)
+      hot = any((x, d) in tainted for x in loads for d in rd.reaching(x, n.id))
+      if not hot:
+        continue
+      targets = {nm for nm, ds in du.defs.items() if n.id in ds} | \
+          {nm for nm, ms in du.muts.items() if n.id in ms}
+      for nm in targets:
+        if nm in du.defs and n.id in du.defs[nm]:
+          if (nm, n.id) not in tainted:
+            tainted.add((nm, n.id))
+            changed = True
+        else:
+          # mutation: every definition of nm reaching here now carries the taint
+          for d in rd.reaching(nm, n.id):
+            if (nm, d) not in tainted:
+              tainted.add((nm, d))
+              changed = True
+  return tainted
+
+
+def def_value(cfg, d):
+  """The value expression of a plain `name = value` binding made at CFG node d, else None."""
+  if d == ReachDefs.ENTRY:
+    return None
+  n = cfg.nodes[d]
+  if n.kind == "stmt" and isinstance(n.stmt, ast.Assign) and len(n.stmt.targets) == 1 and \
+      isinstance(n.stmt.targets[0], ast.Name):
+    return n.stmt.value
+  if n.kind == "stmt" and isinstance(n.stmt, ast.AnnAssign) and isinstance(n.stmt.target, ast.Name):
+    return n.stmt.value
+  return None
+
+
+def whole_of(fn, rd, e, at, is_base, wrappers=("list", "tuple"), depth=0):
+  """True when expression e, read at CFG node `at`, denotes every element of a base collection
+  (through copies: list(x), x[:], [f(r) for r in x] without a filter, and locals bound to those);
+  False when it is recognisably something else (a part, a filtered copy, another value); None
+  when it cannot be told. is_base(name, def) / is_base(expr) identify the base."""
+  if depth > 8:
+    return None
+  if is_base(e, None):
+    return True
+  if isinstance(e, ast.Name):
+    ds = rd.reaching(e.id, at)
+    if not ds:
+      return None
+    verdicts = []
+    for d in ds:
+      if is_base(e.id, d):
+        verdicts.append(True)
+        continue
+      v = def_value(rd.cfg, d)
+      if v is None:
+        verdicts.append(False if d == ReachDefs.ENTRY else None)
+      else:
+        verdicts.append(whole_of(fn, rd, v, d, is_base, wrappers, depth + 1))
+    if all(x is True for x in verdicts):
+      return True
+    return False if any(x is False for x in verdicts) else None
+  if isinstance(e, ast.Call) and dotted(e.func) in wrappers and len(e.args) == 1 and not e.keywords:
+    return whole_of(fn, rd, e.args[0], at, is_base, wrappers, depth + 1)
+  if isinstance(e, ast.Call) and isinstance(e.func, ast.Attribute) and e.func.attr == "copy" and \
+      not e.args:
+    return whole_of(fn, rd, e.func.value, at, is_base, wrappers, depth + 1)
+  if isinstance(e, ast.Subscript):
+    if isinstance(e.slice, ast.Slice) and e.slice.lower is None and e.slice.upper is None and \
+        e.slice.step is None:
+      return whole_of(fn, rd, e.value, at, is_base, wrappers, depth + 1)
+    return False
+  if isinstance(e, (ast.ListComp, ast.GeneratorExp, ast.SetComp)):
+    if len(e.generators) != 1:
+      return False
+    g = e.generators[0]
+    if g.ifs:
+      return False
+    tgt = text(g.target)
+    el = e.elt
+    if isinstance(el, ast.Call) and dotted(el.func) == "int" and len(el.args) == 1:
+      el = el.args[0]
+    if text(el) != tgt:
+      return False
+    return whole_of(fn, rd, g.iter, at, is_base, wrappers, depth + 1)
+  if isinstance(e, (ast.BinOp, ast.Constant, ast.List, ast.Tuple, ast.Set, ast.IfExp)):
+    return False
+  return None
+
+
+def action_arg(call, names, kind, i):
+  """The i-th field of a doc action constructor call (positional or by the field's name), or None.
+  `kind` may be 'A/B' for a class chosen between action types with the same leading fields."""
+  if any(isinstance(x, ast.Starred) for x in call.args) or any(k.arg is None for k in call.keywords):
+    return None
+  if i < len(call.args):
+    return call.args[i]
+  for k in kind.split("/"):
+    fields = names.get(k) or []
+    if i < len(fields):
+      v = kwarg(call, fields[i])
+      if v is not None:
+        return v
+  return None
+
+
+def action_nargs(call):
+  return len(call.args) + len(call.keywords)
